@@ -1530,7 +1530,10 @@ class Hypergraph:
         self.remove_edges_from = frozen
         self.add_node_to_edge = frozen
         self.remove_node_from_edge = frozen
+        self.double_edge_swap = frozen
+        self.random_edge_shuffle = frozen
         self.clear = frozen
+        self.clear_edges = frozen
         self.frozen = True
 
     @property
